@@ -15,6 +15,18 @@ STRENGTHEN = {
  "C06-m2": "in-place coordinate edits through ds.coords[...] added to C06 (and C18 histories)",
  "C17-m1": "sel with float64 ndarray queries (views of a caller buffer) in the other longitude convention added to C17",
  "C17-m2": "single-site datasets with scalar lon/lat data variables added to the C17 writers",
+ "C07-r2m2": "C07 always runs one watershed operation per case",
+ "C17-r2m1": "bbox partitions with omitted limits added to the C17 operation table",
+ "C09-r2m2": "three-box overlap construction (overlapping pair separated in fmin order by a third box) added to the C09 bbox generator",
+ "C10-r2m2": "tied peak directions are no longer skipped in relabelling mode (storage order kept) and equal-energy crossing seas are generated (C10)",
+ "C14-r2m2": "integer-typed station coordinates with fractional queries added to the C14 datasets",
+ "C14-r2m1": "ndarray queries are reused for a second identical call and compared with their original values (C14)",
+ "C19-r2m2": "a site with no wave systems at all added to the track_partitions dataset runs (C19)",
+ "C07-r2m1": "direction-major and strided in-memory blocks with split spectral dimensions added to C07",
+ "C18-r2m1": "every C18 observation is repeated in a pristine forked process; direction edits that keep the first/last label added",
+ "C18-r2m2": "observed reader calls on in-memory native datasets with random optional variables added to C18 histories (pristine-process oracle)",
+ "C02-r2m2": "objects that first held another spectrum, were queried, and were then overwritten in place added to C02",
+ "C04-r2m2": "Python layer in front of the C routine (np_ptm3) driven with Fortran-ordered / transposed / strided inputs and compared with the label regions (C04)",
  "C20-m1": "whole-map timeout in pmap: a hang inside native code is reported as a termination failure and the native sub-check still runs (C20)",
 }
 MANUAL_LATER = {  # re-runs done directly with tools/seeded.py (not in a batch log)
